@@ -47,11 +47,15 @@ fn de<T: serde::de::DeserializeOwned>(b: &Value, key: &str) -> Result<T, String>
     serde_json::from_value::<T>(v).map_err(|e| format!("{key}: {e}"))
 }
 
-fn native_verdict<E: core::fmt::Debug>(r: Result<Result<(), E>, String>) -> NativeV {
+/// (verdict, full Debug rendering of the error when the native verifier rejected)
+fn native_verdict<E: core::fmt::Debug>(r: Result<Result<(), E>, String>) -> (NativeV, Option<String>) {
     match r {
-        Ok(Ok(())) => NativeV::Accept,
-        Ok(Err(e)) => NativeV::Reject(variant_of(&format!("{e:?}"))),
-        Err(m) => NativeV::Panic(norm_site(&m)),
+        Ok(Ok(())) => (NativeV::Accept, None),
+        Ok(Err(e)) => {
+            let d = format!("{e:?}");
+            (NativeV::Reject(variant_of(&d)), Some(d))
+        }
+        Err(m) => (NativeV::Panic(norm_site(&m)), None),
     }
 }
 
@@ -520,6 +524,10 @@ struct UniCompiled {
 
 impl Ctx for UniCtx {
     fn native(&self, b: &Value) -> Result<NativeV, String> {
+        self.native_detail(b).map(|x| x.0)
+    }
+
+    fn native_detail(&self, b: &Value) -> Result<(NativeV, Option<String>), String> {
         let p = parse_uni(b)?;
         let air = self.air;
         let r = p3r_verif::util::guarded(|| {
@@ -799,6 +807,10 @@ struct BatchCompiled {
 
 impl Ctx for BatchCtx {
     fn native(&self, b: &Value) -> Result<NativeV, String> {
+        self.native_detail(b).map(|x| x.0)
+    }
+
+    fn native_detail(&self, b: &Value) -> Result<(NativeV, Option<String>), String> {
         let p = self.parse(b)?;
         let airs = self.airs.clone();
         let r = p3r_verif::util::guarded(|| {
@@ -1103,6 +1115,10 @@ struct CircCtx {
 
 impl Ctx for CircCtx {
     fn native(&self, b: &Value) -> Result<NativeV, String> {
+        self.native_detail(b).map(|x| x.0)
+    }
+
+    fn native_detail(&self, b: &Value) -> Result<(NativeV, Option<String>), String> {
         let bsp = parse_circ(b, &self.data)?;
         let fri: FriSc = de(b, "fri")?;
         let r = p3r_verif::util::guarded(|| {
